@@ -20,6 +20,14 @@ def get_session(kind):
             body = H.peer_open_bytes(65001, 180, '9.9.9.9', H.std_caps(65001, addpath=[(1, 1, 3), (2, 1, 3)]))
             neg, _, _ = H.negotiated(nb, body)
             _sessions[kind] = (nb, neg)
+        elif kind in ('ibgp4-aigp', 'ibgp4-noaigp'):
+            on = kind == 'ibgp4-aigp'
+            nb = H.neighbor(local_as=65000, peer_as=65000, capability='aigp enable;' if on else '')
+            caps = H.std_caps(65000)
+            if on:
+                caps.append(H.cap(26, b''))
+            neg, _, _ = H.negotiated(nb, H.peer_open_bytes(65000, 180, '9.9.9.9', caps))
+            _sessions[kind] = (nb, neg)
         else:
             _sessions[kind] = H.session(kind)
     return _sessions[kind]
